@@ -9,7 +9,8 @@
    proof, partial: atomicity of the O_CREAT|O_EXCL open and OS scheduling are assumptions; the
    descriptor table is tied to src/cmd by the correspondence check (family lock). *)
 From Coq Require Import List Bool Arith.
-From DudV Require Import Model.Lock Proofs.LockProofs.
+From Coq Require Import NArith.
+From DudV Require Import Model.Lock Proofs.LockProofs Corr.RunLock.
 Import ListNotations.
 
 Theorem C12_mutex :
@@ -71,3 +72,13 @@ Theorem C12_prerepair_refuted :
     lockfile g = true.
 Proof. exact C12_prerepair_refuted. Qed.
 Print Assumptions C12_prerepair_refuted.
+
+(* one process running alone: whatever the subcommand, the starting directory and the outcome,
+   the work of the subcommand (event 2) happens only between the creation (0) and the removal (1)
+   of the lock file, the lock is never taken twice or released when not held, and it is not held
+   at the end.  trace_ok is the statement the check evaluates on the ptrace log of the real
+   binary (family lock, shard ltrace). *)
+Theorem C12_work_while_held :
+  forall d cwd_root fails, trace_ok false (model_trace d cwd_root fails) = true.
+Proof. exact model_trace_ok. Qed.
+Print Assumptions C12_work_while_held.
